@@ -102,6 +102,10 @@ func exclusiveC09(c *Ctx) {
 	// the successor must not be reachable from resolve (it would allow clearing the flag at resolve time)
 	shared := false
 	for _, in := range an.AllInstrs(r.fn, func(in ssa.Instruction) bool { _, ok := in.(*ssa.MakeClosure); return ok }) {
+		// (a literal that is invoked on the spot runs as part of the runner itself: it is not handed to anybody)
+		if lf, isF := in.(*ssa.MakeClosure).Fn.(*ssa.Function); isF && (an.ClosureRole(lf) == "call" || an.IsTransparent(lf)) {
+			continue
+		}
 		for _, b := range in.(*ssa.MakeClosure).Bindings {
 			if isSucc(b, a.succ) {
 				shared = true
